@@ -59,6 +59,13 @@ func c18Run(p c18Prog) (c09Run, error) {
 	// the converting registrations read package-level tables
 	_ = h.dr.ConvertAndAddFunction("twice", func(x float64) float64 { return 2 * x })
 	_ = h.dr.ConvertAndAddCommand("note", func(s ...string) error { return nil })
+	_ = h.dr.ConvertAndAddFunction("join", func(parts ...string) string { return strings.Join(parts, "+") })
+	_ = h.dr.ConvertAndAddFunction("sum", func(first float64, rest ...int) float64 {
+		for _, r := range rest {
+			first += float64(r)
+		}
+		return first
+	})
 	h.drive(p.Choices, nil, 30, false)
 	emitMu.Lock()
 	cmds := append(append([]string{}, h.cmdLog...), emitted...)
@@ -91,6 +98,87 @@ func c18Concurrent(c c18Case) ([]c09Run, []error) {
 	return runs, errs
 }
 
+const c18ColdScript = `title: A
+---
+Bob: \[x\] [b]bold [i/] é[/b] [select value=m m="he"]x[/select] [plural value=2 one="a" other="% b"]x[/plural] [ordinal value=2 one="%st" two="%nd" few="%rd" other="%th"]x[/ordinal] [nomarkup][raw][/nomarkup] [select value=f f="she" /] [plural value=1 one="a" other="b" /] [ordinal value=3 one="st" two="nd" few="rd" other="th" /]
+{round_places(1 / 3, 2)} {dice(6)} {random_range(1, 3)} {string(true)} {join("a", "b")} {sum(1, 2, 3)} {twice(2)} {visited("A")}
+-> one <<if $x > 1>> #tag
+    <<note a b>>
+    <<set $x += 1>>
+    <<jump B>>
+-> two
+===
+title: B
+---
+<<declare $y = "s" as string>>
+<<if $x >= 2 and not false>>
+    in B {$x} {$y}
+<<endif>>
+<<wait 0>>
+done
+===
+`
+
+// c18ColdStorm: n goroutines create a runner for the same script and drive it to the end, all starting together; every
+// trace must be the one a runner produces afterwards, alone.
+func c18ColdStorm(n int) string {
+	p := c18Prog{Seed: "cold"}
+	run := func() (c09Run, error) {
+		h, err := newHost([]string{c18ColdScript}, p.Seed, map[string]mval{"x": numVal(1)})
+		if err != nil {
+			return c09Run{}, err
+		}
+		_ = h.dr.ConvertAndAddFunction("twice", func(x float64) float64 { return 2 * x })
+		_ = h.dr.ConvertAndAddCommand("note", func(s ...string) error { return nil })
+		_ = h.dr.ConvertAndAddFunction("join", func(parts ...string) string { return strings.Join(parts, "+") })
+		_ = h.dr.ConvertAndAddFunction("sum", func(first float64, rest ...int) float64 {
+			for _, r := range rest {
+				first += float64(r)
+			}
+			return first
+		})
+		h.drive([]int{0}, nil, 30, false)
+		return c09Run{Trace: h.trace, Fn: h.fnLog, Cmd: h.cmdLog, Store: h.finalStore()}, nil
+	}
+	runs := make([]c09Run, n)
+	errs := make([]error, n)
+	start := make(chan struct{})
+	var wg sync.WaitGroup
+	for i := 0; i < n; i++ {
+		i := i
+		wg.Add(1)
+		go func() {
+			defer wg.Done()
+			defer func() {
+				if r := recover(); r != nil {
+					errs[i] = fmt.Errorf("panic: %v", r)
+				}
+			}()
+			<-start
+			runs[i], errs[i] = run()
+		}()
+	}
+	close(start)
+	wg.Wait()
+	alone, err := run()
+	if err != nil {
+		return "the cold-start script does not load: " + err.Error()
+	}
+	if len(alone.Trace) < 5 || alone.Trace[len(alone.Trace)-1].K != "end" {
+		return "the cold-start script does not run to its end when run alone: " + strings.ReplaceAll(showTrace(alone.Trace), "\n", " / ")
+	}
+	for i := range runs {
+		if errs[i] != nil {
+			return fmt.Sprintf("runner %d of %d that were created and driven at the same moment in a fresh process failed: %v", i, n, errs[i])
+		}
+		if d := alone.diff(runs[i]); d != "" {
+			return fmt.Sprintf("runner %d of %d that were created and driven at the same moment in a fresh process gives another trace than a runner alone: %s | alone: %s | concurrent: %s",
+				i, n, d, strings.ReplaceAll(showTrace(alone.Trace), "\n", " / "), strings.ReplaceAll(showTrace(runs[i].Trace), "\n", " / "))
+		}
+	}
+	return ""
+}
+
 // TestC18Child: concurrent phase first (cold parser caches), then each program alone; prints the verdict.
 func TestC18Child(t *testing.T) {
 	path := os.Getenv("VERIF_C18_CHILD")
@@ -104,6 +192,12 @@ func TestC18Child(t *testing.T) {
 	var c c18Case
 	if err := json.Unmarshal(raw, &c); err != nil {
 		t.Fatal(err)
+	}
+	// first of all, in this still cold process: many runners do the same things for the first time at the same moment
+	// (tables and caches that are filled on first use are filled now)
+	if msg := c18ColdStorm(12); msg != "" {
+		fmt.Printf("C18RESULT fail %s\n", msg)
+		return
 	}
 	var rounds [][]c09Run
 	for r := 0; r < max(1, c.Rounds); r++ {
@@ -178,7 +272,13 @@ func runC18(c c18Case) Verdict {
 var c18ScriptOpts = scriptOpts{maxNodes: 3, maxDepth: 3, maxBody: 4, random: true, firstLine: true, tracking: true,
 	extraStmt: func(g *scriptGen, depth int) *Stmt {
 		g.lineID++
-		switch rapid.IntRange(0, 4).Draw(g.t, "c18stmt") {
+		switch rapid.IntRange(0, 6).Draw(g.t, "c18stmt") {
+		case 5:
+			// converted host functions and commands with variadic tails, called with arguments of this very line
+			return &Stmt{K: "line", Text: []TextPart{{S: fmt.Sprintf("L%d ", g.lineID)}, {E: call("join", str(fmt.Sprintf("L%d", g.lineID)), str("x"), call("string", varRef("k1")))}, {S: " "},
+				{E: call("sum", varRef("k1"), num(fmt.Sprint(g.lineID)), num("2"))}, {S: " "}, {E: call("twice", varRef("k2"))}}}
+		case 6:
+			return &Stmt{K: "cmd", Words: []TextPart{{S: "note"}, {S: fmt.Sprintf("n%d", g.lineID)}, {S: "b"}, {E: call("join", str("c"), str(fmt.Sprint(g.lineID)))}}}
 		case 3:
 			return &Stmt{K: "cmd", Words: []TextPart{{S: "wait"}, {S: rapid.SampledFrom([]string{"0", "0.0001", "0.001"}).Draw(g.t, "secs")}}}
 		case 4:
@@ -211,7 +311,8 @@ var c18Concurrently = Register(Prop[c18Case]{
 					if k%7 == 3 {
 						body = append(body, &Stmt{K: "cmd", Words: []TextPart{{S: "wait"}, {S: "0.0001"}}})
 					}
-					body = append(body, &Stmt{K: "cmd", Words: []TextPart{{S: "emit"}, {S: fmt.Sprintf("r%d", i)}, {E: num(fmt.Sprint(k))}, {E: call("string", bin("+", varRef("k1"), num(fmt.Sprint(k))))}}})
+					body = append(body, &Stmt{K: "cmd", Words: []TextPart{{S: "emit"}, {S: fmt.Sprintf("r%d", i)}, {E: num(fmt.Sprint(k))}, {E: call("string", bin("+", varRef("k1"), num(fmt.Sprint(k))))},
+						{E: call("join", str(fmt.Sprintf("r%d", i)), str(fmt.Sprint(k)), str("z"))}, {E: call("sum", num(fmt.Sprint(i)), num(fmt.Sprint(k)), num("1"))}}})
 				}
 				body = append(body, &Stmt{K: "line", Text: []TextPart{{S: "storm over"}}})
 				f.Script = &Script{Files: [][]*Node{{{Title: "A", Body: body}}}}
